@@ -12,9 +12,12 @@ if os.path.exists(path):
     out = json.load(open(path))
 for f in sorted(os.listdir(os.path.join(here, "evidence"))):
     e = json.load(open(os.path.join(here, "evidence", f)))
-    if e["tier"] != tier or e["coverage"]["verdict"] != "held" or e["coverage"].get("replay_run"):
-        continue
     c = e["coverage"]
+    # a run that is inconclusive only because it stayed below the thresholds still tells what the machine observes
+    only_thresholds = c["verdict"] == "inconclusive" and all(
+        r.startswith("only ") or r.startswith("counter ") for r in c.get("inconclusive_reasons", []))
+    if e["tier"] != tier or not (c["verdict"] == "held" or only_thresholds) or c.get("replay_run") or e.get("violations"):
+        continue
     out[e["property_id"]] = {"evaluations": c["evaluations"], "distinct_nontrivial": c["distinct_nontrivial"],
                              "counters": {k: v for k, v in c["counters"].items() if isinstance(v, int)}, "seed": e["seed"]}
 json.dump(out, open(path, "w"), indent=1, sort_keys=True)
